@@ -80,6 +80,191 @@ def undo_private_renames(model) -> Dict[str, str]:
     return renames
 
 
+def load_reference_names() -> Tuple[Dict[str, Set[str]], Dict[str, Set[str]]]:
+    try:
+        with open(REFERENCE) as f:
+            d = json.load(f)
+    except OSError:
+        return {}, {}
+    return ({k: set(v) for k, v in d.get('module_names', {}).items()}, {k: set(v) for k, v in d.get('class_names', {}).items()})
+
+
+PURE_ROOTS = {'np', 'numpy', 'math', 'cmath'}
+PURE_BUILTINS = {'int', 'float', 'complex', 'str', 'bool', 'bytes', 'tuple', 'frozenset', 'list', 'set', 'dict', 'range', 'len', 'abs', 'min', 'max',
+                 'True', 'False', 'None'}
+
+
+def _pure_constant(e: ast.AST, known: Set[str], budget: List[int]) -> bool:
+    """a literal, or a small expression over literals, numpy / math names and constants already known to be pure"""
+    budget[0] -= 1
+    if budget[0] < 0:
+        return False
+    if isinstance(e, ast.Constant):
+        return True
+    if isinstance(e, (ast.Tuple, ast.List, ast.Set)):
+        return all(_pure_constant(x, known, budget) for x in e.elts)
+    if isinstance(e, ast.Dict):
+        return all(k is not None and _pure_constant(k, known, budget) for k in e.keys) and all(_pure_constant(v, known, budget) for v in e.values)
+    if isinstance(e, ast.UnaryOp):
+        return _pure_constant(e.operand, known, budget)
+    if isinstance(e, ast.BinOp):
+        return _pure_constant(e.left, known, budget) and _pure_constant(e.right, known, budget)
+    if isinstance(e, ast.Name):
+        return e.id in known or e.id in PURE_BUILTINS or e.id in PURE_ROOTS
+    if isinstance(e, ast.Attribute):
+        r = e
+        while isinstance(r, ast.Attribute):
+            r = r.value
+        return isinstance(r, ast.Name) and r.id in PURE_ROOTS
+    if isinstance(e, ast.Call):
+        return not e.keywords and _pure_constant(e.func, known, budget) and all(_pure_constant(a, known, budget) for a in e.args) \
+            and not (isinstance(e.func, ast.Attribute) and e.func.attr in ('random', 'rand', 'randn', 'empty', 'zeros', 'ones', 'array', 'arange'))
+    return False
+
+
+def inline_new_constants(model) -> Dict[str, int]:
+    """Module-level and class-level CONSTANTS that the reference tree does not have (a literal / table moved out of a method body into a
+    named constant) are substituted back at their uses, in place, so that the rules see the literal they were confirmed on.
+
+    Substituted: `NAME = <pure constant expression>` bound exactly once at module level (resp. in a class body), never assigned anywhere
+    else (no `global`, no `X.NAME = ..` store in the package), with NAME unknown to the reference module (resp. class family).  Uses:
+    the bare name in the functions of the module (not shadowed), `self.NAME` / `cls.NAME` / `type(self).NAME` in the methods of the class
+    and its subclasses that do not rebind it, `ClassName.NAME` anywhere in the package."""
+    ref_mod, ref_cls = load_reference_names()
+    if not ref_mod and not ref_cls:
+        return {}
+    done: Dict[str, int] = {}
+    stored_attrs: Set[str] = set()
+    for m in model.modules.values():
+        for n in ast.walk(m.tree):
+            if isinstance(n, ast.Attribute) and isinstance(n.ctx, (ast.Store, ast.Del)):
+                stored_attrs.add(n.attr)
+    all_ref_cls_names = {a for v in ref_cls.values() for a in v}
+    # names (bare or attribute) that are MUTATED somewhere: element / slice stores, augmented assignment, mutating method calls - a
+    # class-level memo dictionary is state, not a constant
+    MUTATORS = {'append', 'extend', 'update', 'setdefault', 'pop', 'popitem', 'clear', 'add', 'remove', 'discard', 'insert', 'sort', 'reverse',
+                'fill', 'resize', 'itemset', 'put', 'setflags', '__setitem__'}
+    mutated: Set[str] = set()
+
+    def _nm(e):
+        return e.attr if isinstance(e, ast.Attribute) else e.id if isinstance(e, ast.Name) else None
+    for m in model.modules.values():
+        for n in ast.walk(m.tree):
+            if isinstance(n, ast.Subscript) and isinstance(n.ctx, (ast.Store, ast.Del)):
+                b_ = n.value
+                while isinstance(b_, ast.Subscript):
+                    b_ = b_.value
+                if _nm(b_):
+                    mutated.add(_nm(b_))
+            elif isinstance(n, ast.AugAssign):
+                t_ = n.target
+                while isinstance(t_, ast.Subscript):
+                    t_ = t_.value
+                if _nm(t_):
+                    mutated.add(_nm(t_))
+            elif isinstance(n, ast.Call) and isinstance(n.func, ast.Attribute) and n.func.attr in MUTATORS and _nm(n.func.value):
+                mutated.add(_nm(n.func.value))
+            elif isinstance(n, ast.keyword) and n.arg == 'out' and _nm(n.value):
+                mutated.add(_nm(n.value))
+
+    def once(body) -> Dict[str, ast.expr]:
+        cnt: Dict[str, int] = {}
+        val: Dict[str, ast.expr] = {}
+        for st in body:
+            if isinstance(st, (ast.Assign, ast.AnnAssign, ast.AugAssign)):
+                tg = st.targets if isinstance(st, ast.Assign) else [st.target]
+                for t in tg:
+                    for x in ast.walk(t):
+                        if isinstance(x, ast.Name):
+                            cnt[x.id] = cnt.get(x.id, 0) + 1
+                if isinstance(st, (ast.Assign, ast.AnnAssign)) and len(tg) == 1 and isinstance(tg[0], ast.Name) and st.value is not None:
+                    val[tg[0].id] = st.value
+        return {k: v for k, v in val.items() if cnt.get(k) == 1}
+
+    def resolve(cands: Dict[str, ast.expr]) -> Dict[str, ast.expr]:
+        """keep the pure ones; constants defined through earlier constants are expanded"""
+        pure: Dict[str, ast.expr] = {}
+        for _ in range(3):
+            for k, v in cands.items():
+                if k in pure:
+                    continue
+                if _pure_constant(v, set(pure), [60]):
+                    v2 = copy.deepcopy(v)
+
+                    class S(ast.NodeTransformer):
+                        def visit_Name(self, n):
+                            return copy.deepcopy(pure[n.id]) if n.id in pure and isinstance(n.ctx, ast.Load) else n
+                    pure[k] = S().visit(v2)
+        return pure
+
+    for m in model.modules.values():
+        known = ref_mod.get(m.path)
+        if known is None:
+            continue
+        globals_ = {nm for n in ast.walk(m.tree) if isinstance(n, (ast.Global, ast.Nonlocal)) for nm in n.names}
+        cands = {k: v for k, v in once(m.tree.body).items() if k not in known and k not in globals_ and k not in mutated}
+        pure = resolve(cands)
+        if pure:
+            for fn in model.all_functions():
+                if fn.module is not m:
+                    continue
+                shadow = set(fn.params) | {x.id for x in ast.walk(fn.node) if isinstance(x, ast.Name) and isinstance(x.ctx, (ast.Store, ast.Del))}
+
+                class SM(ast.NodeTransformer):
+                    def visit_Name(self, n):
+                        if isinstance(n.ctx, ast.Load) and n.id in pure and n.id not in shadow:
+                            done[n.id] = done.get(n.id, 0) + 1
+                            return ast.copy_location(copy.deepcopy(pure[n.id]), n)
+                        return n
+                SM().visit(fn.node)
+                ast.fix_missing_locations(fn.node)
+    for c in model.classes.values():
+        fam_known = set(ref_cls.get(c.qualname, set()))
+        if c.qualname not in ref_cls:
+            # a class the reference does not know at all: leave it alone
+            continue
+        cands = {k: v for k, v in once(c.node.body).items() if k not in fam_known and k not in all_ref_cls_names and k not in stored_attrs and k not in mutated
+                 and not (k.startswith('__') and k.endswith('__'))}
+        pure = resolve(cands)
+        if not pure:
+            continue
+        family = [c] + [k for k in model.subclasses(c)]
+        for k in family:
+            rebound = set(once(k.node.body)) if k is not c else set()
+            for fn in list(k.methods.values()) + list(k.getters.values()) + list(k.setters.values()):
+                sn = fn.self_name
+
+                class SC(ast.NodeTransformer):
+                    def visit_Attribute(self, n):
+                        self.generic_visit(n)
+                        if isinstance(n.ctx, ast.Load) and n.attr in pure and n.attr not in rebound:
+                            v = n.value
+                            recv = (isinstance(v, ast.Name) and (v.id == sn or v.id in ('cls', c.name))) or \
+                                   (isinstance(v, ast.Call) and isinstance(v.func, ast.Name) and v.func.id == 'type') or \
+                                   (isinstance(v, ast.Attribute) and v.attr == '__class__')
+                            if recv:
+                                done[c.name + '.' + n.attr] = done.get(c.name + '.' + n.attr, 0) + 1
+                                return ast.copy_location(copy.deepcopy(pure[n.attr]), n)
+                        return n
+                SC().visit(fn.node)
+                ast.fix_missing_locations(fn.node)
+        # ClassName.NAME anywhere else in the package
+        for fn in model.all_functions():
+            if fn.cls is not None and fn.cls in family:
+                continue
+
+            class SX(ast.NodeTransformer):
+                def visit_Attribute(self, n):
+                    self.generic_visit(n)
+                    if isinstance(n.ctx, ast.Load) and n.attr in pure and isinstance(n.value, ast.Name) and n.value.id == c.name:
+                        done[c.name + '.' + n.attr] = done.get(c.name + '.' + n.attr, 0) + 1
+                        return ast.copy_location(copy.deepcopy(pure[n.attr]), n)
+                    return n
+            SX().visit(fn.node)
+            ast.fix_missing_locations(fn.node)
+    return done
+
+
 def load_reference() -> Optional[Dict[str, Set[str]]]:
     try:
         with open(REFERENCE) as f:
@@ -974,6 +1159,176 @@ def normalise_calls(model, fn) -> int:
     return 0
 
 
+def normalise_named_tests(fn) -> int:
+    """`flag = <test>` ... `if flag:` / `if not flag:` / `while flag` / `x if flag else y` / `assert flag`  ->  the test itself at the use,
+    in place, when `flag` is a local bound exactly once to a pure test (comparison, `is None`, isinstance, and / or / not of such) and
+    nothing between the binding and the use can change what the test reads: both lie in the same block, and the statements between them
+    store to none of the names / attributes the test mentions and contain no call (other than isinstance / len / np.isscalar ...).
+    Hoisting a test into a named boolean is the same branch; the path rules and the lazy-memo idiom read tests as written."""
+    from .astutil import single_locals
+    from .model import norm
+    voc = _vocab(fn)
+    if not ({'If', 'While', 'IfExp', 'Assert'} & voc):
+        return 0
+    PURE_CALLS = {'isinstance', 'len', 'callable', 'hasattr', 'np.isscalar', 'np.ndim', 'np.iscomplexobj', 'np.isrealobj', 'issubclass', 'type'}
+
+    def is_test(e) -> bool:
+        if isinstance(e, ast.Compare):
+            return all(not any(isinstance(x, ast.Call) and norm(x.func) not in PURE_CALLS for x in ast.walk(s_)) for s_ in [e.left] + e.comparators)
+        if isinstance(e, ast.BoolOp):
+            return all(is_test(v) for v in e.values)
+        if isinstance(e, ast.UnaryOp) and isinstance(e.op, ast.Not):
+            return is_test(e.operand)
+        if isinstance(e, ast.Call):
+            return norm(e.func) in ('isinstance', 'np.isscalar', 'callable', 'hasattr', 'issubclass') and not e.keywords
+        return False
+    defs = {k: v for k, v in single_locals(fn).items() if is_test(v) and k not in fn.params}
+    if not defs:
+        return 0
+    done = 0
+
+    def reads(e) -> Set[str]:
+        out = set()
+        for x in ast.walk(e):
+            if isinstance(x, ast.Name):
+                out.add(x.id)
+            elif isinstance(x, ast.Attribute):
+                out.add('.' + x.attr)
+        return out
+
+    def blocks(node):
+        for x in ast.walk(node):
+            for fld in ('body', 'orelse', 'finalbody'):
+                b = getattr(x, fld, None)
+                if isinstance(b, list) and b and isinstance(b[0], ast.stmt):
+                    yield b
+
+    def disturbs(st, rd: Set[str]) -> bool:
+        for x in ast.walk(st):
+            if isinstance(x, ast.Call) and norm(x.func) not in PURE_CALLS:
+                return True
+            if isinstance(x, ast.Name) and isinstance(x.ctx, (ast.Store, ast.Del)) and x.id in rd:
+                return True
+            if isinstance(x, ast.Attribute) and isinstance(x.ctx, (ast.Store, ast.Del)) and '.' + x.attr in rd:
+                return True
+            if isinstance(x, (ast.Subscript,)) and isinstance(x.ctx, (ast.Store, ast.Del)):
+                return True
+        return False
+
+    class Sub(ast.NodeTransformer):
+        def __init__(self, name, test):
+            self.name, self.test, self.n = name, test, 0
+
+        def visit_Name(self, n):
+            if isinstance(n.ctx, ast.Load) and n.id == self.name:
+                self.n += 1
+                return ast.copy_location(copy.deepcopy(self.test), n)
+            return n
+
+    def test_slots(st):
+        """(owner, field) pairs holding a test expression evaluated when the statement `st` is reached"""
+        if isinstance(st, (ast.If, ast.While)):
+            yield st, 'test'
+        elif isinstance(st, ast.Assert):
+            yield st, 'test'
+        for x in ast.walk(st) if not isinstance(st, (ast.If, ast.While, ast.For, ast.With, ast.Try)) else []:
+            if isinstance(x, ast.IfExp):
+                yield x, 'test'
+
+    for body in list(blocks(fn.node)):
+        for i, st in enumerate(body):
+            if not (isinstance(st, ast.Assign) and len(st.targets) == 1 and isinstance(st.targets[0], ast.Name) and st.targets[0].id in defs
+                    and st.value is defs[st.targets[0].id]):
+                continue
+            name, test = st.targets[0].id, st.value
+            rd = reads(test)
+            for later in body[i + 1:]:
+                for owner, fld in test_slots(later):
+                    slot = getattr(owner, fld)
+                    if any(isinstance(x, ast.Name) and x.id == name for x in ast.walk(slot)):
+                        sb = Sub(name, test)
+                        setattr(owner, fld, sb.visit(slot))
+                        done += sb.n
+                if disturbs(later, rd) or isinstance(later, (ast.For, ast.While, ast.With, ast.Try)):
+                    break
+                if isinstance(later, ast.If) and any(disturbs(x, rd) for x in later.body + later.orelse):
+                    # the branches may change the operands: uses AFTER this `if` are not substituted (its own test was, above)
+                    break
+    if done:
+        ast.fix_missing_locations(fn.node)
+    return int(done > 0)
+
+
+def normalise_string_locals(fn) -> int:
+    """A local bound exactly once to a STRING literal (a result name, a dictionary key, a file extension) and never rebound is replaced by
+    the literal at its uses, in place: rules match names and keys as literals; naming the literal first is the same program."""
+    from .astutil import single_locals
+    if 'Constant' not in _vocab(fn):
+        return 0
+    defs = {k: v for k, v in single_locals(fn).items() if isinstance(v, ast.Constant) and isinstance(v.value, str) and k not in fn.params}
+    if not defs:
+        return 0
+    # not when the name is also bound by a loop / with / except / comprehension / walrus or declared global
+    other = set()
+    for n in ast.walk(fn.node):
+        if isinstance(n, (ast.For, ast.comprehension)):
+            other |= {x.id for x in ast.walk(n.target) if isinstance(x, ast.Name)}
+        elif isinstance(n, (ast.Global, ast.Nonlocal)):
+            other |= set(n.names)
+        elif isinstance(n, ast.NamedExpr):
+            other.add(n.target.id)
+        elif isinstance(n, ast.ExceptHandler) and n.name:
+            other.add(n.name)
+        elif isinstance(n, ast.withitem) and n.optional_vars is not None:
+            other |= {x.id for x in ast.walk(n.optional_vars) if isinstance(x, ast.Name)}
+    defs = {k: v for k, v in defs.items() if k not in other}
+    if not defs:
+        return 0
+    done = 0
+
+    class R(ast.NodeTransformer):
+        def visit_Name(self, n):
+            nonlocal done
+            if isinstance(n.ctx, ast.Load) and n.id in defs:
+                done += 1
+                return ast.copy_location(ast.Constant(value=defs[n.id].value), n)
+            return n
+    R().visit(fn.node)
+    return int(done > 0)
+
+
+def normalise_out_ufuncs(fn) -> int:
+    """`np.add(a, b, out=a)` as a statement  ->  `a += b`  (subtract, multiply, divide / true_divide alike; `a` a name, an attribute or a
+    subscript written identically both times), in place.  The in-place ufunc call and the augmented assignment are the same operation
+    on the same array; rules that follow accumulations / scalings know the augmented form."""
+    from .model import norm
+    if 'out' not in {k.arg for n in ast.walk(fn.node) if isinstance(n, ast.Call) for k in n.keywords}:
+        return 0
+    OPS = {'add': ast.Add, 'subtract': ast.Sub, 'multiply': ast.Mult, 'divide': ast.Div, 'true_divide': ast.Div}
+    done = 0
+
+    class R(ast.NodeTransformer):
+        def visit_Expr(self, n):
+            nonlocal done
+            c = n.value
+            if isinstance(c, ast.Call) and isinstance(c.func, ast.Attribute) and isinstance(c.func.value, ast.Name) \
+                    and c.func.value.id in ('np', 'numpy') and c.func.attr in OPS and len(c.args) == 2 \
+                    and len(c.keywords) == 1 and c.keywords[0].arg == 'out' and isinstance(c.args[0], (ast.Name, ast.Attribute, ast.Subscript)) \
+                    and norm(c.keywords[0].value) == norm(c.args[0]):
+                tgt = copy.deepcopy(c.args[0])
+                for x in ast.walk(tgt):
+                    if hasattr(x, 'ctx'):
+                        x.ctx = ast.Load()
+                tgt.ctx = ast.Store()
+                done += 1
+                return ast.copy_location(ast.AugAssign(target=tgt, op=OPS[c.func.attr](), value=c.args[1]), n)
+            return n
+    R().visit(fn.node)
+    if done:
+        ast.fix_missing_locations(fn.node)
+    return done
+
+
 def normalise_ifexp(fn) -> int:
     """`x = A if c else B`  ->  `if c: x = A  else: x = B`  (also for `return`, augmented and annotated assignments), in
     place: the path rules follow `if` statements, a conditional expression at the top of a statement is the same branch."""
@@ -1294,6 +1649,7 @@ def flatten_model(model) -> Optional[Flattener]:
         return None
     fl = Flattener(model, ref)
     fl.renames = undo_private_renames(model)
+    fl.constants = inline_new_constants(model)
     funcs = [f for f in model.all_functions() if f.kind != 'nested']
     new = [f for f in funcs if fl.is_new(f)]
     _VOCAB.clear()
@@ -1310,6 +1666,9 @@ def flatten_model(model) -> Optional[Flattener]:
     fl.gathers = run(normalise_gathers)
     fl.calls = run(normalise_calls, model)
     fl.dispatch = run(normalise_dispatch)
+    fl.out_ufuncs = run(normalise_out_ufuncs)
+    fl.string_locals = run(normalise_string_locals)
+    fl.named_tests = run(normalise_named_tests)
     fl.ifexps = run(normalise_ifexp)
     fl.collectors = 0
     if not new:
